@@ -599,6 +599,21 @@ def p_mofProduction(p):
                      """
 
 
+def _create_namespace(p, ns, cim_error):
+    """
+    Create the namespace in the WBEM server, after the CIM repository has
+    answered with CIM_ERR_INVALID_NAMESPACE. A CIM repository connection
+    without WBEM connection has no server in which it could be created.
+    """
+    if p.parser.server is None:
+        raise MOFRepositoryError(
+            msg=_format("Cannot compile MOF because namespace {0!A} does not "
+                        "exist in the CIM repository and cannot be created "
+                        "without a WBEM connection", ns),
+            parser_token=p, cim_error=cim_error)
+    p.parser.server.create_namespace(ns)
+
+
 def p_mp_createClass(p):
     """mp_createClass : classDeclaration
                       """
@@ -640,7 +655,7 @@ def p_mp_createClass(p):
                         p.parser.log(
                             _format("Creating namespace {0} (in MOF compiler)",
                                     ns))
-                    p.parser.server.create_namespace(ns)
+                    _create_namespace(p, ns, ce)
                     fixedNS = True
                     continue  # Try again to create the class
 
@@ -908,7 +923,7 @@ def p_mp_setQualifier(p):
             if p.parser.verbose:
                 p.parser.log(
                     _format("Creating namespace {0} (in MOF compiler)", ns))
-            p.parser.server.create_namespace(ns)
+            _create_namespace(p, ns, ce)
             if p.parser.verbose:
                 p.parser.log(
                     _format("Setting qualifier {0}:{1}", ns, qualdecl.name))
@@ -1138,7 +1153,7 @@ def p_qualifier(p):
             if p.parser.verbose:
                 p.parser.log(
                     _format("Creating namespace {0} (in MOF compiler)", ns))
-            p.parser.server.create_namespace(ns)
+            _create_namespace(p, ns, ce)
             quals = None
 
         if quals:
